@@ -250,6 +250,9 @@ pub fn cases(suite: &str, tier: &str, seed: u64, props: &BTreeSet<String>) -> Ve
                 out.extend(crate::hist::histories(&cfg, tier));
             }
         }
+        "qry" => out.extend(crate::qry::cases(tier, seed)),
+        "tre" => out.extend(crate::tre::cases(tier)),
+        "mig" => out.extend(crate::mig::cases(tier)),
         other => panic!("SYMX: unknown suite {other}"),
     }
     out
@@ -267,7 +270,7 @@ fn verdict_json(v: &Verdict) -> Value {
     }
 }
 
-pub fn run_suite(suite: &str, props: &BTreeSet<String>, tier: &str, seed: u64, si: usize, sn: usize, miniwasm: bool, only: Option<&str>, ops: &[String]) -> Value {
+pub fn run_suite(suite: &str, props: &BTreeSet<String>, tier: &str, seed: u64, si: usize, sn: usize, miniwasm: bool, only: Option<&str>, ops: &[String], only_sub: Option<&str>) -> Value {
     let t0 = Instant::now();
     let filter = Filter { props: props.clone() };
     let mut all = cases(suite, tier, seed, props);
@@ -276,6 +279,9 @@ pub fn run_suite(suite: &str, props: &BTreeSet<String>, tier: &str, seed: u64, s
             let op = c.name.splitn(3, ':').nth(2).unwrap_or("");
             ops.iter().any(|k| op.starts_with(k.as_str()))
         });
+    }
+    if let Some(sub) = only_sub {
+        all.retain(|c| c.name.contains(sub));
     }
     let total_cases = all.len();
     let mut n_cases = 0;
